@@ -38,6 +38,12 @@ def units(rng, tier):
             vals, fam = gen.values(rng, nmax=11)
         d = rng.choice([1, 1, 2, 3, len(vals), None, None])
         us.append(mk(rng, vals, d, fam))
+    # dense stream where the cardinality bound binds: 6..9 small values (many ties and zero-sum-difference sub-partitions) with d in 1..3
+    for _ in range(6000 if tier == "quick" else 60000):
+        n = rng.randint(6, 9)
+        hi = rng.choice([3, 4, 6, 10, 30])
+        vals = [rng.randint(0, hi) for _ in range(n)]
+        us.append(mk(rng, vals, rng.choice([1, 1, 2, 3]), "dense-small-bound", fmt="list"))
     return us
 
 
